@@ -1082,7 +1082,7 @@ def run(ctx):
         if r["error"] and r["error"].get("abandoned"):
             # the user's own in-place write reached the LIVE field (through the dict returned by Set_Iter)
             # and a later Solve started from that garbage: not a statement of C15; case dropped
-            ctx.cov["cases_abandoned_after_user_write_into_live"] = ctx.cov.get("cases_abandoned_after_user_write_into_live", 0) + 1
+            ctx.cov["cases_abandoned(user write into live field, or nonlinear solver non-convergence)"] = ctx.cov.get("cases_abandoned(user write into live field, or nonlinear solver non-convergence)", 0) + 1
             continue
         if r["error"]:
             e = r["error"]
